@@ -607,6 +607,65 @@ theorem sysInv_run (sts : List Step) (y : Sys) (h : SysInv y) : SysInv (y.run st
   | nil => exact h
   | cons st sts ih => exact ih (y.step st) (sysInv_step y st h)
 
+/-! ### anti-entropy -/
+
+theorem mem_snapshot {s : State} {ms : List Nat} {u : Update} :
+    u ∈ snapshot s ms ↔ u.node ∈ ms ∧ s.regs u.node = some u.reg := by
+  induction ms with
+  | nil => simp [snapshot]
+  | cons k ks ih =>
+    unfold snapshot
+    cases hk : s.regs k with
+    | none =>
+      simp only [ih, List.mem_cons]
+      constructor
+      · intro ⟨h1, h2⟩; exact ⟨Or.inr h1, h2⟩
+      · intro ⟨h1, h2⟩
+        cases h1 with
+        | inl e => rw [e, hk] at h2; cases h2
+        | inr h1 => exact ⟨h1, h2⟩
+    | some e =>
+      simp only [List.mem_cons, ih]
+      constructor
+      · intro h
+        cases h with
+        | inl h => subst h; exact ⟨Or.inl rfl, hk⟩
+        | inr h => exact ⟨Or.inr h.1, h.2⟩
+      · intro ⟨h1, h2⟩
+        cases h1 with
+        | inl h1 =>
+          left
+          cases u with
+          | mk n r =>
+            simp only at h1 h2; subst h1; rw [hk] at h2; cases h2; rfl
+        | inr h1 => exact Or.inr ⟨h1, h2⟩
+
+theorem join_none_right (a : Option Reg) : join a none = a := by cases a <;> rfl
+
+/-- merging another replica's published registers joins, member by member -/
+theorem merge_snapshot (s t : State) (ms : List Nat) (m : Nat) (hm : m ∈ ms) :
+    (merge s (snapshot t ms)).1.regs m = join (s.regs m) (t.regs m) := by
+  rw [merge_apply]
+  cases ht : t.regs m with
+  | none =>
+    rw [join_none_right]
+    have : forMember m (snapshot t ms) = [] := by
+      apply List.eq_nil_iff_forall_not_mem.mpr
+      intro x hx
+      have := (mem_snapshot.mp (mem_forMember.mp hx)).2
+      simp only at this; rw [ht] at this; cases this
+    rw [this]; rfl
+  | some r =>
+    have h1 : join (s.regs m) (some r) = joinList (s.regs m) [r] := rfl
+    rw [h1]
+    apply isJoin_unique (joinList_isJoin _ _) (joinList_isJoin _ _)
+    intro x
+    rw [mem_forMember, mem_snapshot]
+    simp only [List.mem_cons, List.not_mem_nil, or_false]
+    constructor
+    · intro ⟨_, h2⟩; rw [ht] at h2; cases h2; rfl
+    · intro e; subst e; exact ⟨hm, ht⟩
+
 /-! ### the manager -/
 
 theorem passesDelta_of_le (s : State) (maxDelta : Nat) (u : Update) (h : u.reg.inc ≤ maxDelta) :
